@@ -394,15 +394,25 @@ def replay(pid, path, R):
     return 0
 
 # ---------------------------------------------------------------------------------------------------
-# source ties: theorems about terms GENERATED from /repo's current source (tools/urgency2lean.py, tools/sql2lean.py)
+# source ties: theorems about terms GENERATED from /repo's current source (tools/urgency2lean.py, sql2lean.py, server2lean.py,
+# clap2lean.py). (module, theorems, source keys that must have been translated)
 T_ = 'Tcs.Proofs.SqlTie.'
-PROPS['C12']['ties'] = [('Tcs.Proofs.UrgencySrcTie', ['Tcs.C12_src_for_days', 'Tcs.C12_src_for_versions_since']),
-                        (T_ + 'AddVersion', ['Tcs.sqlSrc_addVersion'])]
-PROPS['C13']['ties'] = [(T_ + 'All', ['Tcs.sqlSrc_tie']), (T_ + 'Open', ['Tcs.sqlSrc_open_statements'])]
-PROPS['C09']['ties'] = [(T_ + 'GetByParent', ['Tcs.sqlSrc_getByParent']), (T_ + 'GetVersion', ['Tcs.sqlSrc_getVersion'])]
-PROPS['C03']['ties'] = [(T_ + 'Begin', ['Tcs.sqlSrc_begin_immediate'])]
-PROPS['C04']['ties'] = [(T_ + 'CommitStmt', ['Tcs.sqlSrc_commit_stmt']), (T_ + 'Conn', ['Tcs.sqlSrc_conn_no_pragma']),
-                        (T_ + 'Open', ['Tcs.sqlSrc_open_statements']), (T_ + 'NoOther', ['Tcs.sqlSrc_no_other_sql'])]
-PROPS['C05']['ties'] = [(T_ + 'CommitStmt', ['Tcs.sqlSrc_commit_stmt']), (T_ + 'NoOther', ['Tcs.sqlSrc_no_other_sql'])]
-PROPS['C19']['ties'] = [(T_ + 'Open', ['Tcs.sqlSrc_open_statements']), (T_ + 'SetSnapshot', ['Tcs.sqlSrc_setSnapshot']),
-                        (T_ + 'GetClient', ['Tcs.sqlSrc_getClient'])]
+SV = 'Tcs.Proofs.ServerSrcTie'
+PROPS['C12']['ties'] = [('Tcs.Proofs.UrgencySrcTie', ['Tcs.C12_src_for_days', 'Tcs.C12_src_for_versions_since'], ['urgency:forDays', 'urgency:forVersionsSince']),
+                        (T_ + 'AddVersion', ['Tcs.sqlSrc_addVersion'], ['sql:addVersion'])]
+PROPS['C13']['ties'] = [(T_ + 'All', ['Tcs.sqlSrc_tie'], ['sql:getClient', 'sql:newClient', 'sql:setSnapshot', 'sql:getSnapshotData', 'sql:getByParent', 'sql:getVersion', 'sql:addVersion', 'sql:commitStmts']),
+                        (T_ + 'Open', ['Tcs.sqlSrc_open_statements'], ['sql:openStmts'])]
+PROPS['C09']['ties'] = [(T_ + 'GetByParent', ['Tcs.sqlSrc_getByParent'], ['sql:getByParent']), (T_ + 'GetVersion', ['Tcs.sqlSrc_getVersion'], ['sql:getVersion'])]
+PROPS['C03']['ties'] = [(T_ + 'Begin', ['Tcs.sqlSrc_begin_immediate'], ['sql:beginStmts'])]
+PROPS['C04']['ties'] = [(T_ + 'CommitStmt', ['Tcs.sqlSrc_commit_stmt'], ['sql:commitStmts']), (T_ + 'Conn', ['Tcs.sqlSrc_conn_no_pragma'], ['sql:connStmts']),
+                        (T_ + 'Open', ['Tcs.sqlSrc_open_statements'], ['sql:openStmts']), (T_ + 'NoOther', ['Tcs.sqlSrc_no_other_sql'], ['sql:unaccounted'])]
+PROPS['C05']['ties'] = [(T_ + 'CommitStmt', ['Tcs.sqlSrc_commit_stmt'], ['sql:commitStmts']), (T_ + 'NoOther', ['Tcs.sqlSrc_no_other_sql'], ['sql:unaccounted'])]
+PROPS['C19']['ties'] = [(T_ + 'Open', ['Tcs.sqlSrc_open_statements'], ['sql:openStmts']), (T_ + 'SetSnapshot', ['Tcs.sqlSrc_setSnapshot'], ['sql:setSnapshot']),
+                        (T_ + 'GetClient', ['Tcs.sqlSrc_getClient'], ['sql:getClient'])]
+# the protocol operations of core/src/server.rs, translated statement by statement
+PROPS['C02']['ties'] = [(SV, ['Tcs.serverSrc_addVersion'], ['server:addVersion'])]
+PROPS['C08']['ties'] = [(SV, ['Tcs.serverSrc_getChildVersion'], ['server:getChildVersion'])]
+PROPS['C10']['ties'] = [(SV, ['Tcs.serverSrc_addSnapshot', 'Tcs.serverSrc_addSnapshot_impl', 'Tcs.serverSrc_loop'], ['server:addSnapshot'])]
+PROPS['C11']['ties'] = [(SV, ['Tcs.serverSrc_getSnapshot'], ['server:getSnapshot'])]
+# the clap declarations and the wiring of main
+PROPS['C17']['ties'] = [('Tcs.Proofs.CliSrcTie', ['Tcs.cliSrc_args', 'Tcs.cliSrc_wiring', 'Tcs.cliSrc_resolve'], ['cli:args', 'cli:wiring'])]
